@@ -344,6 +344,12 @@ class Body:
         # strip trailing derefs for the purpose of following
         proj = list(pl["p"])
         base = pl["l"]
+        lit = self._variant_literal_ops(base, [p for p in proj if p != "deref"])
+        if lit is not None and len(lit[0]) == 1:
+            o = lit[0][0]
+            if o.get("k") == "const":
+                return ("const", o) if not lit[1] else ("place", pl)
+            return self.origin({"l": o["pl"]["l"], "p": list(o["pl"]["p"]) + lit[1]}, through_calls, _depth + 1)
         ds = self.whole_defs(base)
         if len(ds) != 1:
             if not ds:
@@ -518,6 +524,27 @@ class Body:
                         if adt:
                             out.add(("field", adt, nm))
                     return out | self.atoms({"l": o["pl"]["l"], "p": list(o["pl"]["p"])}, depth, _seen, interproc)
+        # variant-sensitive step through enum literals: `(x as Some).0` where every definition of x is a literal
+        # `Some(v)` / `None` derives from the v of the matching literals only (the shape left by flat.py's expansion of
+        # map / ok_or / `?`, and by hand-written matches that build a Result or Option on each branch)
+        lit = self._variant_literal_ops(pl["l"], projs)
+        if lit is not None:
+            ops_, rest = lit
+            out.add(("downcast", projs[0]["dc"]))
+            for (adt, nm) in place_fields({"l": 0, "p": rest}):
+                if adt:
+                    out.add(("field", adt, nm))
+            for p in rest:
+                if isinstance(p, dict) and "dc" in p:
+                    out.add(("downcast", p["dc"]))
+            if pl["l"] in _seen:
+                return out
+            for o in ops_:
+                if o.get("k") == "const":
+                    out |= self.atoms(o, depth, _seen, interproc)
+                else:
+                    out |= self.atoms({"l": o["pl"]["l"], "p": list(o["pl"]["p"]) + rest}, depth, _seen, interproc)
+            return out
         for (adt, nm) in place_fields(pl):
             if adt:
                 out.add(("field", adt, nm))
@@ -557,6 +584,25 @@ class Body:
                 if interproc:
                     out |= interproc(t, depth)
         return out
+
+    def _variant_literal_ops(self, local, projs):
+        """projs = [downcast V, field i, rest...] and every definition of `local` is an enum literal: returns
+        ([operand i of each literal of variant V], rest); None otherwise."""
+        if len(projs) < 2 or not (isinstance(projs[0], dict) and "dc" in projs[0] and isinstance(projs[1], dict) and "f" in projs[1]):
+            return None
+        ds = self.defs.get(local, [])
+        if not ds or local <= self.fn["arg_count"]:
+            return None
+        ops_ = []
+        for d in ds:
+            if d[0] != "stmt" or d[3]["lhs"]["p"]:
+                return None
+            rv = d[3]["rv"]
+            if rv["k"] != "agg" or rv.get("what") != "adt" or "variant" not in rv:
+                return None
+            if rv["variant"] == projs[0]["dc"] and projs[1]["f"] < len(rv["ops"]):
+                ops_.append(rv["ops"][projs[1]["f"]])
+        return ops_, projs[2:]
 
     def rv_atoms(self, rv, depth=0, _seen=None, interproc=None):
         out = set()
@@ -829,7 +875,8 @@ class Body:
         return self.term(bb).get("cline") or self.term(bb).get("line")
 
     def site(self, bb):
-        return "%s:%s" % (self.fn["file"], self.line_of(bb))
+        src = self.blocks[bb].get("src")
+        return "%s:%s" % (src["file"] if src else self.fn["file"], self.line_of(bb))
 
 
 SIZES = {"u8": 1, "i8": 1, "bool": 1, "u16": 2, "i16": 2, "u32": 4, "i32": 4, "u64": 8, "i64": 8, "usize": 8, "isize": 8}
